@@ -198,6 +198,47 @@ func init() {
 			return out
 		},
 	}
+	plans["C05"] = &plan{
+		rule:        "hostile inputs: random bytes of three alphabets (0..64 KiB), exhaustive token sequences (<=4), boundary pairs, atom and string byte tables, every truncation of small valid documents, corpus mutants, maximal structural density ([[[[, [],[], {\"\":0, ]]]] ...) at lengths 64/128/448/512/1408/1536/2816/8192+-3, 8192+-70, 16x and 17x1408, 100x and 160x1408, early stage-2 failure with 2/20/120 buffers still to come, stage-1-only failures, buffers filling exactly at a carried quote/atom with nothing structural after it, nesting to depth 2000 (full reader sweep) and 10^4/10^5/2^20 (iterative readers and Interface, one case per process life). Every input runs through Parse and ParseND under avx2/avx512 x copy/no-copy, reused and fresh, placed in an end-aligned guard-page mapping (every 4th also start-aligned); the copy-mode string buffer is guard-terminated with its capacity swept +-40 around the in-place/reallocate decision. Monitors: recover() around every call and reader, error-xor-result, library goroutines left blocked after return, index channel drained, worker death classified (fault, stack overflow, checkptr, runtime deadlock, watchdog + goroutine dump); the >8 KiB subset again under the race detector. Distinct non-trivial = inputs of >= 2 bytes holding at least one byte stage 1 must index, by content hash",
+		assumptions: append([]string{"'bounded time' is decided as absence of deadlock plus termination of every call within the watchdog; slow-but-running calls are reported as inconclusive, never as violations"}, commonAssumptions...),
+		jobs: func(tier string) []*job {
+			return []*job{
+				{variant: "plain", mode: "main", shards: 14, maxResume: 8},
+				{variant: "plain", mode: "deep", shards: 2, maxResume: 12, gogc: "100", quickTimeout: 20 * time.Minute, thoroughTimeout: 90 * time.Minute},
+				{variant: "race", mode: "main", shards: 2, maxResume: 0, gomaxprocs: 8, weight: 2, quickTimeout: 8 * time.Minute, stage: 1},
+			}
+		},
+		require: func(tier string, c, m map[string]int64, s map[string]map[string]struct{}) []string {
+			out := need(c, "calls_input_end_aligned_to_guard_page", 100000)
+			out = append(out, need(c, "calls_input_start_aligned_to_guard_page", 10000)...)
+			out = append(out, need(c, "calls_string_buffer_end_aligned_to_guard_page", 500)...)
+			out = append(out, need(c, "inputs_async_path", 300)...)
+			out = append(out, need(c, "deep_cases", 8)...)
+			return out
+		},
+	}
+	plans["C09"] = &plan{
+		rule:        "NDJSON streams (2 documents .. 2000 lines quick / 20000 lines, > 20 MiB and a line > 10 MiB thorough; blank and white-space-only lines anywhere incl. leading/trailing runs, CRLF, missing final newline, lines from 10 B to 12 KB) served by a reader under test control: 1-byte, 1..7-byte, power-of-two, up-to/just-past/just-before line end, all-at-once and random <= 64 KiB fragments, (n,EOF) together or (0,EOF) separately, and an injected reader error at every byte offset (short streams) or ~120 sampled offsets; x chunk completion policy (natural, reverse: hook holds chunk i until up to 3 later chunks are parsed, random delay) x GOMAXPROCS 1,2,4,16 x result channel unbuffered/buffered x reuse channel none / recycle all / every other / full and never drained x slow/fast consumer. The recorded element sequence is judged offline: documents delivered = the stream's documents in order (a prefix when the reader failed), exactly one error element, io.EOF resp. the reader's own error (errors.Is), nothing after it, no element with both or neither field, channel closed; a stream that never closes ends the worker through the runtime deadlock detector. Plain and race builds. Distinct non-trivial = (stream, configuration) runs with >= 2 chunks",
+		assumptions: commonAssumptions,
+		jobs: func(tier string) []*job {
+			return []*job{
+				{variant: "plain", mode: "main", shards: 16, maxResume: 4, gomaxprocs: 16, weight: 1, memlimit: "3GiB"},
+				{variant: "race", mode: "main", shards: 4, maxResume: 0, gomaxprocs: 16, weight: 2, memlimit: "4GiB", quickTimeout: 8 * time.Minute, stage: 1},
+			}
+		},
+		require: func(tier string, c, m map[string]int64, s map[string]map[string]struct{}) []string {
+			out := need(c, "streams", 1000)
+			out = append(out, need(c, "out_of_order_completions_observed", 100)...)
+			out = append(out, need(c, "streams_with_injected_reader_error", 300)...)
+			if len(s["fragmentations"]) < 12 {
+				out = append(out, "fewer than 12 fragmentation x EOF styles exercised")
+			}
+			if c["chunk_hold_budget_exhausted"] > c["chunk_holds"]/4 {
+				out = append(out, "more than a quarter of the forced chunk holds ran out of budget")
+			}
+			return out
+		},
+	}
 	plans["C10"] = std("documents (strings holding every byte value and every pair of escape-needing bytes, every number kind, the C02 document workload, NDJSON) fresh and after seeded histories of in-place replacements and deletions; marshalled from the root iterator (MarshalJSON and MarshalJSONBuffer with a prefix), from single-value-scoped inner iterators (AdvanceIter / NextElementBytes / FindKey), Array.MarshalJSON and Elements.MarshalJSON. Each output must be valid JSON per the reference recogniser (valid UTF-8, well-formed surrogates, roots separated by LF), denote the model document (strings byte-equal, member order, numbers numerically equal) and be a fixed point of parse+marshal; a non-finite float placed with SetFloat must make every marshaller return an error. Distinct non-trivial = marshalled tapes whose text holds a container or an escape, by (document, edit history) hash", 16,
 		func(c, m map[string]int64) []string {
 			out := need(c, "edited_tapes", 1000)
